@@ -4,6 +4,8 @@ import (
 	"context"
 	"encoding/json"
 	"fmt"
+	"github.com/sirupsen/logrus"
+	"io"
 	"sort"
 	"strings"
 	"sync"
@@ -36,6 +38,7 @@ type Case struct {
 	RefCount bool     `json:"refcount"`
 	Delay    bool     `json:"delay"`
 	NegDelay bool     `json:"negdelay,omitempty"` // the delay is passed as a negative duration (documented: its magnitude is used)
+	Logger   bool     `json:"logger,omitempty"`   // built by the WithLogger constructor variant
 	OptTwice bool     `json:"opttwice,omitempty"` // the release-delay option is given twice, the opposite setting first: the last one counts
 	Behs     []string `json:"behs"`
 	Backoff  []int    `json:"backoff"`
@@ -54,9 +57,15 @@ func genCase(kind string) func(t *rapid.T) Case {
 	return func(t *rapid.T) Case {
 		var c Case
 		c.NKeys = rapid.IntRange(1, ev.Pick(5, 6)).Draw(t, "nkeys")
+		big := kind == "C06" && rapid.IntRange(0, 7).Draw(t, "bigkeys") == 0
+		if big {
+			// a key universe large enough for bulk effects (a SyncKeys that drops most of many keys)
+			c.NKeys = rapid.IntRange(17, 24).Draw(t, "nkeysbig")
+		}
 		c.Delay = rapid.Bool().Draw(t, "delay")
 		c.NegDelay = c.Delay && rapid.IntRange(0, 3).Draw(t, "negdelay") == 0
 		c.OptTwice = rapid.IntRange(0, 4).Draw(t, "opttwice") == 0
+		c.Logger = rapid.IntRange(0, 3).Draw(t, "logger") == 0
 		var behs, kinds []string
 		switch kind {
 		case "C06":
@@ -99,6 +108,9 @@ func genCase(kind string) func(t *rapid.T) Case {
 				op.Key = key.Draw(t, "key")
 			case "synckeys":
 				op.Keys = rapid.SliceOfN(key, 0, 5).Draw(t, "keys")
+				if c.NKeys > 6 && rapid.Bool().Draw(t, "manykeys") {
+					op.Keys = rapid.SliceOfN(key, c.NKeys/2, 2*c.NKeys).Draw(t, "keysmany")
+				}
 				op.Restart = rapid.Bool().Draw(t, "restart")
 			case "setctx":
 				op.Ctx = rapid.SampledFrom([]string{"new", "new", "same", "nil"}).Draw(t, "ctx")
@@ -145,6 +157,15 @@ func genCase(kind string) func(t *rapid.T) Case {
 			// while the key is removed and referenced again by others
 			k := key.Draw(t, "rkey")
 			c.Ops = append([]Op{{K: "setctx", Ctx: "new"}, {K: "addref", Key: k}, {K: "release", Pick: 0}, {K: "rcremove", Key: k}, {K: "addref", Key: k}}, c.Ops...)
+		} else if big {
+			// construction: everything is requested, then most of it is dropped by one SyncKeys
+			all := make([]int, c.NKeys)
+			for i := range all {
+				all[i] = i
+			}
+			few := rapid.SliceOfN(key, 0, 3).Draw(t, "few")
+			c.Ops = append([]Op{{K: "setctx", Ctx: "new"}, {K: "synckeys", Keys: all}, {K: "synckeys", Keys: few},
+				{K: "setkey", Key: key.Draw(t, "again"), Start: true}, {K: "advance", D: len(advTable) - 1}}, c.Ops...)
 		} else if rapid.IntRange(0, 3).Draw(t, "prefix") != 0 {
 			c.Ops = append([]Op{{K: "setctx", Ctx: "new"}}, c.Ops...)
 		}
@@ -213,7 +234,8 @@ func run(t *testing.T, cs Case) *ev.Verdict {
 		N        int
 		Ops      []Op
 		OptTwice bool
-	}{cs.RefCount, cs.Delay, cs.Full, cs.NegDelay, cs.Behs, cs.Backoff, cs.NKeys, cs.Ops, cs.OptTwice})
+		Logger   bool
+	}{cs.RefCount, cs.Delay, cs.Full, cs.NegDelay, cs.Behs, cs.Backoff, cs.NKeys, cs.Ops, cs.OptTwice, cs.Logger})
 	v.Canon = string(canon)
 	c, berr := sched.Run(t, parkPoints, cs.Sched, func(c *sched.Ctl) { body(c, cs, v) })
 	v.Trace = c.Trace()
@@ -389,9 +411,16 @@ func body(c *sched.Ctl, cs Case, v *ev.Verdict) {
 	}
 	var kd *keyed.Keyed[int, int]
 	var rcd *keyed.KeyedRefCount[int, int]
-	if cs.RefCount {
+	lg := logrus.New()
+	lg.SetOutput(io.Discard)
+	switch {
+	case cs.RefCount && cs.Logger:
+		rcd = keyed.NewKeyedRefCountWithLogger(ctor, logrus.NewEntry(lg), opts...)
+	case cs.RefCount:
 		rcd = keyed.NewKeyedRefCount(ctor, opts...)
-	} else {
+	case cs.Logger:
+		kd = keyed.NewKeyedWithLogger(ctor, logrus.NewEntry(lg), opts...)
+	default:
 		kd = keyed.NewKeyed(ctor, opts...)
 	}
 	getKeys := func() []int {
